@@ -11,6 +11,7 @@ import (
 	"time"
 
 	"github.com/whawty/auth/zzverif/simexec"
+	"github.com/whawty/auth/zzverif/simfs"
 	"github.com/whawty/auth/zzverif/simsignal"
 )
 
@@ -29,6 +30,15 @@ func propC19(r *Run) {
 		cfg := GenConfig(r, "/srv/whawty/base")
 		model := w.populateDir(cfg, 2+r.Choose("nusers", 2), false)
 		users := sortedKeysA(model)
+		// the agent's own environment may carry a variable of that name (started from another
+		// instance's hook, or set by mistake): the hooks still see the store they are called for
+		inheritedN := 0
+		if r.Choose("inherited-store-variable", 3) == 0 {
+			simfs.Env["WHAWTY_AUTH_STORE"] = []string{"/etc/whawty/auth-store.yaml", "/srv/whawty/elsewhere", ""}[r.Choose("inherited-value", 3)]
+			simfs.Env["HOME"] = "/root"
+			inheritedN = 1
+			r.Count("probe:store-variable-inherited")
+		}
 		hdir := "/etc/whawty/hooks.d"
 		dirPerm := []uint32{0o755, 0o755, 0o700, 0o775, 0o757, 0o777, 0o1777, 0o1757, 0o1755, 0o2775, 0o2777, 0o1703}[r.Choose("hooks-dir-perm", 12)]
 		w.fs.PutDir(hdir, 0o755)
@@ -219,7 +229,7 @@ func propC19(r *Run) {
 					envN++
 				}
 			}
-			if envN != 1 {
+			if envN < 1 || envN > 1+inheritedN {
 				r.Fail("hooks/env-missing", "%s started with %d WHAWTY_AUTH_STORE variables", p.Path, envN)
 			}
 			if p.Killed && p.KilledAt.Sub(p.StartAt) < time.Minute {
@@ -282,10 +292,9 @@ func propC19(r *Run) {
 					// start (a reload in between makes both defensible); a stale value is not
 					ok := false
 					for s := ch.step; s <= p.Step && !ok; s++ {
-						for _, ev := range p.Env {
-							if ev == "WHAWTY_AUTH_STORE="+baseOf(s) {
-								ok = true
-							}
+						// what the hook sees: of several entries for one name the last one counts
+						if ev := storeEnv(p.Env); len(ev) > 0 && ev[len(ev)-1] == "WHAWTY_AUTH_STORE="+baseOf(s) {
+							ok = true
 						}
 					}
 					if ok {
